@@ -818,21 +818,29 @@ Theorem C14_parafac2_guarded_head_foil :
 Proof. exact p2_head_guarded_differs. Qed.
 Print Assumptions C14_parafac2_guarded_head_foil.
 
-(* `if fixed_factors:` of tucker tests the request as the caller passes it: a tuple behaves as the list; an ndarray request does not
-   (known finding tucker_fixed_factors_ndarray_request: array([0]) is false, so the request is ignored; two or more entries raise) *)
-Theorem C14_tucker_request_truth_value : forall l : list Z,
-  request_truth CTuple l = request_truth CList l /\ (request_truth CList l = Ok true <-> l <> []).
-Proof. exact request_truth_list_tuple. Qed.
-Print Assumptions C14_tucker_request_truth_value.
+(* the gate in front of tucker's fixed-factor branch since commit 1ad6e15 (`fixed_factors = list(fixed_factors)` before `if fixed_factors:`):
+   for EVERY container of the request (list, tuple, ndarray) and None, the branch is entered iff the request has at least one entry; the
+   regenerated gate of the source is proved equal to tucker_gate on every run *)
+Theorem C14_tucker_request_any_iterable : forall (c : container) (req : option (list Z)),
+  tucker_gate c req = Ok (match req with Some (_ :: _) => true | _ => false end).
+Proof. exact tucker_gate_any_iterable. Qed.
+Print Assumptions C14_tucker_request_any_iterable.
 
-Theorem C14_tucker_request_truth_value_partial : forall z : Z, request_truth CArray [z] = Ok true <-> z <> 0%Z.
-Proof. exact request_truth_array_single. Qed.
-Print Assumptions C14_tucker_request_truth_value_partial.
+Theorem C14_tucker_request_enters_iff_nonempty : forall (c : container) (l : list Z), tucker_gate c (Some l) = Ok true <-> l <> [].
+Proof. exact tucker_gate_enters. Qed.
+Print Assumptions C14_tucker_request_enters_iff_nonempty.
 
-Theorem C14_tucker_request_truth_value_refuted :
-  request_truth CArray [0%Z] = Ok false /\ request_truth CList [0%Z] = Ok true /\ request_truth CArray [0%Z; 1%Z] = Err /\ request_truth CList [0%Z; 1%Z] = Ok true.
-Proof. exact request_truth_array_witness. Qed.
-Print Assumptions C14_tucker_request_truth_value_refuted.
+Theorem C14_tucker_request_container_free : forall (c c' : container) (req : option (list Z)), tucker_gate c req = tucker_gate c' req.
+Proof. exact tucker_gate_container_free. Qed.
+Print Assumptions C14_tucker_request_container_free.
+
+(* before_1ad6e15: the gate took the truth value of the request as passed -- array([0]) was false (request ignored), a longer ndarray had no
+   truth value (ValueError); repaired by commit 1ad6e15 (found by this check as tucker_fixed_factors_ndarray_request) *)
+Example C14_tucker_request_before_1ad6e15 :
+  tucker_gate_before_1ad6e15 CArray (Some [0%Z]) = Ok false /\ tucker_gate_before_1ad6e15 CList (Some [0%Z]) = Ok true /\
+  tucker_gate_before_1ad6e15 CArray (Some [0%Z; 1%Z]) = Err /\
+  tucker_gate CArray (Some [0%Z]) = Ok true /\ tucker_gate CArray (Some [0%Z; 1%Z]) = Ok true /\ tucker_gate CArray (Some []) = Ok false /\ tucker_gate CTuple None = Ok false.
+Proof. exact gate_before_1ad6e15_witness. Qed.
 
 (* ---- the estimator classes as argument routers (Proofs/WarmStartCls.v): the tables store (attribute |-> constructor parameter) and pass
    (driver keyword |-> attribute) of CP, CP_NN, CP_NN_HALS, ConstrainedCP, Tucker, Tucker_NN, Tucker_NN_HALS and Parafac2 are regenerated
@@ -861,3 +869,35 @@ Example C14_class_routes_nonvacuous :
   routes_ok ["init"; "n_iter_max"; "fixed_modes"; "normalize_factors"]%string cp_store_expect cp_pass_expect = true /\
   kw_of cp_store_expect cp_pass_expect (fun p => if String.eqb p "fixed_modes" then 7 else 0) "fixed_modes"%string = Some 7.
 Proof. vm_compute. split; reflexivity. Qed.
+
+(* ---- the start state of partial_tucker / non_negative_tucker / non_negative_tucker_hals (Proofs/WarmStartSrc2.v, TuckerDrivers): the
+   user-init branch of initialize_tucker and each driver's code between its initialize_tucker call and its main loop are regenerated from
+   the source (tucker_init_src, tkd_start_src_<driver>) and proved to agree with tucker_init / tkd_start on every run; for ANY start
+   function that agrees, with any sweep and stopping rule: *)
+Theorem C14_tucker_driver_any_source_zero_budget : forall (F : Type) st (nn un : bool), tkd_start_agrees (F := F) st nn un ->
+  forall normalize fabs normf sweep stop core fs,
+  tkd_run_from st normalize fabs normf sweep stop 0 core fs = tkd_start nn (un && normalize) fabs normf core fs.
+Proof. exact @src_tkd_zero_budget. Qed.
+Print Assumptions C14_tucker_driver_any_source_zero_budget.
+
+(* partial_tucker (no non-negativity, no normalisation in front of the loop): zero budget returns exactly the supplied (core, factors) *)
+Theorem C14_partial_tucker_any_source_zero_budget : forall (F : Type) st, tkd_start_agrees (F := F) st false false ->
+  forall normalize fabs normf sweep stop core fs, tkd_run_from st normalize fabs normf sweep stop 0 core fs = (core, fs).
+Proof. exact @src_tkd_plain_zero_budget. Qed.
+Print Assumptions C14_partial_tucker_any_source_zero_budget.
+
+(* the non-negative variants, default normalisation, on an entrywise non-negative initialisation (named hypothesis fabs x = x; a signed one is
+   replaced by its absolute value: known finding, C14_ntd_init_refuted) *)
+Theorem C14_ntd_any_source_zero_budget_partial : forall (F : Type) st (un : bool), tkd_start_agrees (F := F) st true un ->
+  forall fabs normf sweep stop core fs,
+  (forall x, In x (data core) -> fabs x = x) ->
+  (forall A, In A fs -> forall row, In row A -> forall x, In x row -> fabs x = x) ->
+  tkd_run_from st false fabs normf sweep stop 0 core fs = (core, fs).
+Proof. exact @src_tkd_nonneg_zero_budget. Qed.
+Print Assumptions C14_ntd_any_source_zero_budget_partial.
+
+Theorem C14_tucker_init_translation_agrees : forall F : Type,
+  (forall nn (fabs : F -> F) core fs, tucker_init_expect nn fabs core fs = tucker_init nn fabs core fs) /\
+  tkd_start_agrees (tkd_start_expect_nn (F := F)) true true.
+Proof. exact (fun F => conj (tucker_init_expect_ok F) (tkd_start_expect_nn_ok F)). Qed.
+Print Assumptions C14_tucker_init_translation_agrees.
